@@ -1528,14 +1528,23 @@ class Executor:
                     epr_cmd_data, pair_index, is_creator, request_key = info
                     if (is_creator, request_key) in blocked_requests:
                         continue
-                    handled = self._epr_response_handlers[response.type](
-                        epr_cmd_data=epr_cmd_data,
-                        response=response,
-                        pair_index=pair_index,
-                    )
+                    try:
+                        handled = self._epr_response_handlers[response.type](
+                            epr_cmd_data=epr_cmd_data,
+                            response=response,
+                            pair_index=pair_index,
+                        )
+                    except Exception:
+                        # A response that cannot be handled is reported once: left pending
+                        # it would raise again for every later response, also those
+                        # of other applications
+                        self._pending_epr_responses.pop(i)
+                        raise
                     if not handled:
                         blocked_requests.add((is_creator, request_key))
                 if handled:
+                    # The response is consumed, also if storing its information fails
+                    self._pending_epr_responses.pop(i)
                     epr_cmd_data.pairs_left -= 1
 
                     self._handle_last_epr_pair(
@@ -1549,7 +1558,6 @@ class Executor:
                         response=response,  # type: ignore
                         pair_index=pair_index,
                     )
-                    self._pending_epr_responses.pop(i)
                     break
         if not handled:
             self._wait_to_handle_epr_responses()
